@@ -46,7 +46,7 @@ Family(w, GT, sets, kind) ==
                       s \in {FormsOfSet(w.dim, sets[j], kind) = OrbitRev(w, GT, sets[j][1], kind)}} : TRUE]
 AllSingle(fam) == \A j \in DOMAIN fam : fam[j][1]
 AllClosed(fam) == \A j \in DOMAIN fam : fam[j][2]
-GroupLemma(w, G) == IsGroup(w, G)
+GroupLemma(w, G) == IsGroup(w, G) /\ AffineLemma(w, G)
 
 SeqWithout(q, P) ==
   LET idx == SetToSortSeq({i \in 1..Len(q) : i \notin P}, LAMBDA a, b : a < b) IN [n \in 1..Len(idx) |-> q[idx[n]]]
